@@ -90,17 +90,35 @@ def gen_rule_path(rng):
     return p
 
 
-def gen_robots(rng, ua_names=('wpull', 'foobot', '*')):
+# comments as webmasters write them, seen as the parser sees them (the file is read as ISO-8859-1): UTF-8 Cyrillic and
+# Nordic text whose last byte is 0x85, a cp1252 ellipsis, CJK text with 0x85 in the middle, a no-break space, and
+# the page-break / separator controls some editors leave at the start or the end of a line
+ODD_COMMENTS = ['# \xd0\xb7\xd0\xb0\xd0\xbf\xd1\x80\xd0\xb5\xd1\x82 \xd0\xbd\xd0\xb0 \xd0\xb2\xd1\x81\xd0\xb5\xd1\x85', '# \xc3\x85', '# and so on\x85',
+                '# \xe5\x85\xa8\xe9\x83\xa8', '# caf\xe9\xa0', '# a\x0bb', '# a\x0cb', '# a\x1cb\x1d\x1e', '#\x85', '# x \x85 ']
+ODD_EDGES = ['\x0c', '\x0b', '\x1c', '\x1d', '\x1e', '\x85', '\xa0', '\t']
+
+
+def gen_robots(rng, ua_names=('wpull', 'foobot', '*'), odd=None):
     lines = []
+    odd = rng.random() < 0.3 if odd is None else odd
     for g in range(rng.randint(0, 3)):
         for _ in range(rng.randint(1, 2)):
             name = rng.choice(list(ua_names) + ['Googlebot', 'WPULL', 'bot'])
             lines.append(rng.choice(['User-agent', 'user-agent', 'User-Agent', 'Useragent']) + ': ' + name)
+        if odd and rng.random() < 0.5:
+            lines.append(rng.choice(ODD_COMMENTS))        # a comment line between the agent line and its rules
         for _ in range(rng.randint(0, 4)):
             kind = rng.choice(['Disallow', 'Disallow', 'Allow', 'disallow', 'Crawl-delay', 'Sitemap', 'Bogus'])
             val = gen_rule_path(rng) if kind.lower() in ('disallow', 'allow') else rng.choice(['1', 'http://a.test/s.xml', 'x'])
             cm = rng.choice(['', '', '', ' # note'])
-            lines.append('%s: %s%s' % (kind, val, cm))
+            if odd and rng.random() < 0.4:
+                cm = ' ' + rng.choice(ODD_COMMENTS)
+            line = '%s: %s%s' % (kind, val, cm)
+            if odd and rng.random() < 0.3:
+                line = rng.choice(ODD_EDGES) + line if rng.random() < 0.5 else line + rng.choice(ODD_EDGES)
+            lines.append(line)
+            if odd and rng.random() < 0.3:
+                lines.append(rng.choice(ODD_COMMENTS))    # ... and between two rules
         if rng.random() < 0.7:
             lines.append('')
         if rng.random() < 0.15:
@@ -148,6 +166,15 @@ def stream_match(ctx, n):
             if rs2 != rs:
                 ctx.fail('bom-changes-rules', 'parser', {'stream': 'match', 'robots': bom + text, 'url': 'http://a.test/', 'ua': ''},
                          'with a UTF-8 byte order mark the file parses to %r, without it to %r' % (rs, rs2))
+        if '#' in text:
+            # what a comment says changes nothing: the same file with the text of every comment taken out
+            bare = re.sub(r'#[^\r\n]*', '#', text)
+            pool3 = RobotsTxtPool()
+            load_as_fetched(RobotsTxtChecker(web_client=None, robots_txt_pool=pool3), base, bare.encode('latin-1', 'replace'))
+            rs3 = parsed_rulesets(pool3._parsers[pool3.url_info_key(base)])
+            if rs3 != rs:
+                ctx.fail('comment-changes-rules', 'parser', {'stream': 'match', 'robots': bom + text, 'url': 'http://a.test/', 'ua': ''},
+                         'the file parses to %r, with its comments emptied to %r' % (rs, rs3))
         for _ in range(4):
             url = 'http://a.test' + gen_path(rng)
             ua = rng.choice(AGENTS)
@@ -180,6 +207,8 @@ def ref_parse(text):
     if text.startswith('\xef\xbb\xbf'):
         text = text[3:]
     for line in re.split(r'\r\n|\r|\n', text):
+        if line.strip().startswith('#'):
+            continue          # a line that holds only a comment is no record boundary (the 1994 text says so)
         line = line.split('#', 1)[0].strip()
         if not line:
             cur, last_ua = None, False
@@ -343,6 +372,16 @@ def gen_rsite(rng, big=None):
                                                                 for _ in range(rng.randint(1, 2))))
             rng.shuffle(groups)
             text = '\n'.join(groups)
+            if rng.random() < 0.3:
+                # the webmaster's notes, in the webmaster's language, inside the records
+                ls = text.split('\n')
+                for k in range(len(ls) - 1, -1, -1):
+                    if ls[k] and rng.random() < 0.5:
+                        if rng.random() < 0.5:
+                            ls.insert(k + 1, rng.choice(ODD_COMMENTS))
+                        else:
+                            ls[k] += ' ' + rng.choice(ODD_COMMENTS)
+                text = '\n'.join(ls)
             if rng.random() < 0.5:
                 text = text.rstrip('\n')        # last rule without a line end
             if big if big is not None else rng.random() < 0.25:
@@ -776,6 +815,20 @@ def replay(ctx, case, kind=None, where=None):
     else:
         from wpull.robotstxt import RobotsTxtPool
         from wpull.url import URLInfo
+        if kind in ('bom-changes-rules', 'comment-changes-rules'):
+            from wpull.protocol.http.robots import RobotsTxtChecker
+            base = URLInfo.parse('http://a.test/')
+            text = case['robots']
+            other = text[3:] if kind == 'bom-changes-rules' and text.startswith('\xef\xbb\xbf') else re.sub(r'#[^\r\n]*', '#', text)
+            got = []
+            for t in (text, other):
+                pl = RobotsTxtPool()
+                load_as_fetched(RobotsTxtChecker(web_client=None, robots_txt_pool=pl), base, t.encode('latin-1', 'replace'))
+                got.append(parsed_rulesets(pl._parsers[pl.url_info_key(base)]))
+            ctx.case(('match-invariance', text))
+            if got[0] != got[1]:
+                ctx.fail(kind, 'parser', case, 'the file parses to %r, its plain twin to %r' % (got[0], got[1]))
+            return
         pool = RobotsTxtPool()
         base = URLInfo.parse('http://a.test/')
         pool.load_robots_txt(base, case['robots'])
